@@ -35,7 +35,9 @@ class LinearLayerTT(nn.Module):
             InvalidArguments: Initializer not defined. Possible choices are 'He' and 'Glo'.
         """
         super().__init__()
-        self.size_in, self.size_out, self.rank = size_in, size_out, rank
+        if len(size_in) != len(size_out):
+            raise InvalidArguments('size_in and size_out must have the same number of modes.')
+        self.size_in, self.size_out, self.rank = list(size_in), list(size_out), list(rank)
         if initializer=='He':
             t = torchtt.randn([(s2,s1) for s1,s2 in zip(size_in,size_out)], rank, dtype=dtype, var = 2/tn.prod(tn.tensor([s1 for s1 in size_in])))
             #self.cores = [nn.Parameter(tn.Tensor(c.clone())) for c in t.cores] 
@@ -73,6 +75,8 @@ class LinearLayerTT(nn.Module):
 
         d = len(self.size_in)
         D = len(x.shape)
+        if D < d or list(x.shape[D-d:]) != list(self.size_in):
+            raise ShapeMismatch('The trailing modes of the input must be size_in.')
 
         for c in self.cores:
             result = tn.tensordot(result,c,([D-d,-1],[2,0]))
